@@ -158,8 +158,9 @@ def argument(draw, kind, scope, ctx, depth, pyscope=None):
         return draw(st.sampled_from([('ref', 'A'), ('ref', 'B'), ('ref', 'W')] + [('ref', c) for c in ctx.classes]))
     if choice == 4 and pars:
         return ('ref', draw(st.sampled_from(pars)))
-    # compound, possibly capturing names of the call site (through Ref nodes only: F11)
-    e = draw(rexpr(min(depth, 2), scope, ctx, tail=False, pyscope={}))
+    # compound, possibly capturing names of the call site - also from inline Python and symbolic
+    # counts (that was known finding F11 until it was fixed)
+    e = draw(rexpr(min(depth, 2), scope, ctx, tail=False))
     if e[0] == 'py':
         e = ('seq', [e])      # a bare inline-Python argument is a value, not a parser
     return e
